@@ -7,6 +7,7 @@ and need to communicate with each other.
 from __future__ import annotations
 
 from collections import defaultdict
+from itertools import count
 from threading import RLock
 from time import sleep
 from timeit import default_timer as timer
@@ -38,7 +39,11 @@ class _SocketHub:
         # This is to prevent a connection from opening and closing on one side before
         # the sides notices and waits for ever.
         self._open_sockets: Set[thread_socket.socket.T_ThreadSocketKey] = set()
-        self._remote_sockets: Set[thread_socket.socket.T_ThreadSocketKey] = set()
+        # Per key: mark of the socket that announced itself last under that key.
+        # A socket only takes back the mark it has seen when it got connected, not the
+        # mark of a later socket that uses the same key.
+        self._remote_sockets: Dict[thread_socket.socket.T_ThreadSocketKey, int] = {}
+        self._marks = count(1)
 
         self._messages: Dict[
             thread_socket.socket.T_ThreadSocketKey,
@@ -68,7 +73,7 @@ class _SocketHub:
         with self._lock:
             self._add_callbacks(socket)
             self._open_sockets.add(socket.key)
-            self._remote_sockets.add(socket.key)
+            self._remote_sockets[socket.key] = next(self._marks)
 
         try:
             self._wait_for_remote(socket, timeout=timeout)
@@ -76,7 +81,7 @@ class _SocketHub:
             # This socket never got connected and there will be no disconnect for it:
             # do not leave it behind for a remote socket that is opened later to find.
             self._open_sockets.discard(socket.key)
-            self._remote_sockets.discard(socket.key)
+            self._remote_sockets.pop(socket.key, None)
             self._recv_callbacks.pop(socket.key, None)
             self._conn_lost_callbacks.pop(socket.key, None)
             raise
@@ -105,8 +110,12 @@ class _SocketHub:
 
             if socket.key in self._open_sockets:
                 self._open_sockets.remove(socket.key)
-            if socket.remote_key in self._remote_sockets:
-                self._remote_sockets.remove(socket.remote_key)
+            seen_mark = getattr(socket, "_seen_remote_mark", None)
+            if (
+                seen_mark is not None
+                and self._remote_sockets.get(socket.remote_key) == seen_mark
+            ):
+                del self._remote_sockets[socket.remote_key]
             self._recv_callbacks.pop(socket.key, None)
             self._conn_lost_callbacks.pop(socket.key, None)
 
@@ -121,10 +130,16 @@ class _SocketHub:
         """Wait for a remote socket to become active"""
         t_start = timer()
         while True:
-            if socket.remote_key in self._open_sockets:
+            with self._lock:
+                remote_open = socket.remote_key in self._open_sockets
+                seen_mark = self._remote_sockets.get(socket.remote_key)
+                if remote_open or seen_mark is not None:
+                    # Remember which remote socket this one got connected to
+                    socket._seen_remote_mark = seen_mark  # type: ignore
+            if remote_open:
                 self._logger.debug(f"Connection for socket {socket.key} successful")
                 return
-            if socket.remote_key in self._remote_sockets:
+            if seen_mark is not None:
                 self._logger.debug(
                     f"Connection for socket {socket.key} was successful but closed again"
                 )
